@@ -236,7 +236,7 @@ BIG = 1 << 20
 PROBES = [0, 1, 255, 256, 257, (1 << 19) - 1, 1 << 19, BIG - 1]
 
 
-def gen_random_big(rnd, ops, n_hist, length, near_end=False, depth=20):
+def gen_random_big(rnd, ops, n_hist, length, near_end=False, depth=20, big_batches=False):
     """large-depth histories (sparse observation): boundary positions of the real tree, few touched leaves"""
     BIG = 1 << depth
     HALF = BIG >> 1
@@ -262,6 +262,8 @@ def gen_random_big(rnd, ops, n_hist, length, near_end=False, depth=20):
                 # (pmtree walks the whole right half for a range that starts near the end of the tree: keep
                 #  accepted ranges away from there, rejected ones are fine)
                 n = rnd.choice([0, 1, 2, 3, 5])
+                if big_batches and rnd.random() < 0.12:
+                    n = rnd.choice([64, 65, 130, 257])          # batches long enough for any chunked / parallel path
                 st = rnd.choice([0, 1, 255, HALF - 1, HALF, HALF + 1, BIG, rnd.randrange(300)]) if not low else pos()
                 if near_end and not low and rnd.random() < 0.4:
                     st = rnd.choice([BIG - 3, BIG - 2, BIG - 1])        # in-memory backends: accepted ranges ending at capacity
@@ -271,6 +273,8 @@ def gen_random_big(rnd, ops, n_hist, length, near_end=False, depth=20):
             elif c == "override":
                 n = rnd.choice([0, 0, 1, 2, 3])
                 k = rnd.choice([0, 1, 1, 2, 3])
+                if big_batches and rnd.random() < 0.12:
+                    n, k = rnd.choice([(70, 3), (3, 40), (65, 33)])
                 rem = [rnd.choice([0, 1, 2, 3, 255, rnd.randrange(256), rnd.randrange(16)]) for _ in range(k)]
                 st = rnd.choice([0, 1, 2, 3, 255, 256, rnd.randrange(300), rnd.randrange(16)])
                 if not low and (n == 0 or k == 0):
@@ -422,7 +426,7 @@ def run_property(prop, tier, out, binary=None):
     # 6. the three backends at the trait level at depths 10 and 20 (sparse observation; proofs of low, high and
     #    moving positions with everything the proof type exposes: decoded position, recomputed root, verdicts)
     for dd in (10, 20):
-        scenarios.append((f"big-d{dd}", gen_random_big(rnd, ops, 6 if quick else 60, 20, near_end=False, depth=dd), ["full", "optimal", "pm"]))
+        scenarios.append((f"big-d{dd}", gen_random_big(rnd, ops, 6 if quick else 60, 20, near_end=False, depth=dd, big_batches=True), ["full", "optimal", "pm"]))
     total_events = 0
     distinct = nontriv = 0
     traces_ok = 0
